@@ -63,7 +63,8 @@ def check_cfg(ctx, fx, cfg):
             crs = timers.creations(fx, f)
             ctx.require(bool(crs), "R06.2", "timer-created:%s@%s" % (f["def"], cfg), "cannot see where this timer future is created", fn=f["def"], site=f["loc"])
             for cr in crs:
-                ctx.require(cr.api["def"] in apis, "R06.2", "timer-registered:%s@%s" % (cr.api["def"].split("::")[-1], cfg), "a timer future is not handed to the registering function (it would survive the actor)", fn=f["def"], site=cr.site)
+                handed = cr.reaches(set(regs))
+                ctx.require(handed if handed is not None else (cr.api["def"] in apis), "R06.2", "timer-registered:%s@%s" % (cr.api["def"].split("::")[-1], cfg), "a timer future is not handed to the registering function (it would survive the actor)", fn=f["def"], site=cr.site)
         # all spawn_future uses in the crate are the registrar and the trait plumbing
         for f, bi, t in graph.all_calls(fx, lambda t: (t.get("callee") or "").endswith("::spawn_future")):
             okc = f["def"] in regs or f["def"].startswith("actor::spawner::SpawnFutures::") or f["def"].startswith("<actor::spawner::")
